@@ -12,6 +12,10 @@ def CHOOSE(
     https://support.office.com/en-us/article/
         choose-function-fc5c184f-cb62-4ec7-a46e-38653b98f5bc
     """
+    # The index is truncated to an integer before it is checked: 0.5 is
+    # below 1, not a way to address the last value.
+    index_num = int(index_num)
+
     if index_num <= 0 or index_num > 254:
         raise xlerrors.ValueExcelError(
             f"`index_num` {index_num} must be between 1 and 254")
@@ -21,7 +25,7 @@ def CHOOSE(
             f"`index_num` {index_num} must not be larger than the number of "
             f"values: {len(values)}")
 
-    idx = int(index_num) - 1
+    idx = index_num - 1
     return values[idx]
 
 
